@@ -98,7 +98,7 @@ const PRIMS: &[&str] = &[
     "apply", "call/cc", "call-with-current-continuation", "eval", "force", "error", "display", "write", "symbol?",
     "procedure?", "vector?", "string?", "boolean?", "number?", "integer?", "char?", "list?", "zero?", "string-length",
     "cadr", "cddr", "caar", "cdar", "abs", "min", "max", "even?", "odd?", "positive?", "negative?", "quotient",
-    "remainder", "modulo", "%any-null?", "%cars", "%cdrs", "%list*", "%vector", "newline", "add1", "sub1",
+    "remainder", "modulo", "%inject", "%any-null?", "%cars", "%cdrs", "%list*", "%vector", "newline", "add1", "sub1",
 ];
 
 const MODEL_PRELUDE: &str = "
@@ -278,7 +278,11 @@ impl Machine {
                             k = next.clone();
                         }
                         Frame::Set(name, env, next) => {
-                            let loc = self.lookup(name, env)?;
+                            // R7RS: "it is an error" to set! an unbound variable; implementations
+                            // need not detect it
+                            let loc = self
+                                .lookup(name, env)
+                                .map_err(|_| Abort::Unspecified("set! of an unbound variable"))?;
                             *loc.borrow_mut() = v;
                             control = Control::Return(V::Unspec);
                             k = next.clone();
@@ -1017,6 +1021,7 @@ impl Machine {
                     _ => return Err(type_err()),
                 }
             }
+            "%inject" => return Err(Abort::Error("injected", None)),
             "error" => {
                 Self::arity(&args, 1, None)?;
                 return Err(Abort::Error("user", Some(args.iter().map(|a| a.to_dv()).collect())));
